@@ -25,20 +25,31 @@ def scalarCName : Scalar → String
   | .real sz _ => if sz = 32 then "float" else "double"
   | .str => "char"
 
-/-- `str(_ft_c_type(ft, is_const))` for element types -/
-def elemCType (isConst : Bool) : Elem → String
-  | .sc .str => "const char *" ++ (if isConst then " const" else "")
-  | .sc s => (if isConst then "const " else "") ++ scalarCName s
-  | .sarr _ e =>
-    let p := elemCType true e
-    p ++ (if p.endsWith "*" then "" else " ") ++ "*" ++ (if isConst then " const" else "")
+/-- `_CType`: arithmetic or pointer C type, each possibly `const` -/
+inductive CT
+  | arith (name : String) (isConst : Bool)
+  | ptr (to : CT) (isConst : Bool)
+deriving Repr, DecidableEq
 
-def ftCType (isConst : Bool) : FT → String
-  | .el e => elemCType isConst e
-  | .darr _ e =>
-    let p := elemCType true e
-    p ++ (if p.endsWith "*" then "" else " ") ++ "*" ++ (if isConst then " const" else "")
-  | .uuid => "const uint8_t *" ++ (if isConst then " const" else "")
+/-- `_ArithCType.__str__` / `_PointerCType.__str__` -/
+def CT.render : CT → String
+  | .arith n c => (if c then "const " else "") ++ n
+  | .ptr t c =>
+    let s := t.render
+    s ++ (if s.endsWith "*" then "" else " ") ++ "*" ++ (if c then " const" else "")
+
+/-- `_ft_c_type(ft, is_const)` for element types -/
+def elemCT (isConst : Bool) : Elem → CT
+  | .sc .str => .ptr (.arith "char" true) isConst
+  | .sc s => .arith (scalarCName s) isConst
+  | .sarr _ e => .ptr (elemCT true e) isConst
+
+def ftCT (isConst : Bool) : FT → CT
+  | .el e => elemCT isConst e
+  | .darr _ e => .ptr (elemCT true e) isConst
+  | .uuid => .ptr (.arith "uint8_t" true) isConst
+
+def ftCType (isConst : Bool) (ft : FT) : String := (ftCT isConst ft).render
 
 def FT.isDyn : FT → Bool
   | .el e => e.leaf == .str
